@@ -11,7 +11,7 @@ import (
 )
 
 var specC10 = report.Spec{Property: "C10", Check: "C10",
-	Rule: "feature streams of length 0-200 (most below 40; 1 in 200 with 1100-2600 features, thorough 6000), 1-5 targets (1 in 15 cases 6-16), optionally one early polygon whose snapping takes 30 ms (a straggler), each feature of a random geometry type (point, multipoint, linestring, multilinestring, collection, polygon, multipolygon with 1-4 parts) with a unique attribute tuple (int, float, string, nil); 1-5 targets with arbitrary distinct tile matrix ids; " +
+	Rule: "feature streams of length 0-200 (most below 40; 1 in ~60 with 1100-1700 features, thorough 6000), 1-5 targets (1 in 15 cases 6-16), optionally one early polygon whose snapping takes 30 ms (a straggler), each feature of a random geometry type (point, multipoint, linestring, multilinestring, collection, polygon, multipolygon with 1-4 parts) with a unique attribute tuple (int, float, string, nil); 1-5 targets with arbitrary distinct tile matrix ids; " +
 		"a generated outcome table for the fake snapping function: per (polygon part, target) absent / one polygon / 2-3 polygons, never an empty list (the caller's contract); a generated plan of yields and sleeps in source, snapping function and targets; GOMAXPROCS in {1,2,4,16}; the stream is cut into 1-3 tables and ProcessFeatures is called once per table with the same target objects, like main.go does. " +
 		"Oracle: a sequential reference model computes per target the expected list of (attributes, geometry, tile matrix id); fake targets record what they receive, keep the delivered objects and read them again when their channel closes (a delivered feature must not change afterwards); exact sequence equality (count, order, attribute identity, geometry deep equality, tile matrix id of every delivered feature = the target's id); ProcessFeatures returns and leaves no goroutine. " +
 		"Non-trivial: >= 2 targets, some polygon feature dropped for one target and kept for another, and some feature split into several polygons. Distinct by case content.",
@@ -23,7 +23,7 @@ func drawFeats(t *rapid.T, nTargets int, maxFeats int) []FeatSpec {
 		n = rapid.IntRange(0, report.Scale(200, 600)).Draw(t, "featuresLong")
 	}
 	if rapid.IntRange(0, 49).Draw(t, "huge") == 23 { // thousands of features: buffers, pools and reorder windows fill up
-		n = rapid.IntRange(1100, report.Scale(2600, 6000)).Draw(t, "featuresHuge")
+		n = rapid.IntRange(1100, report.Scale(1700, 6000)).Draw(t, "featuresHuge")
 	}
 	feats := make([]FeatSpec, n)
 	for i := range feats {
